@@ -3,6 +3,8 @@ package doc
 import (
 	"fmt"
 	"math"
+	"strconv"
+	"strings"
 	"time"
 
 	"gopkg.in/yaml.v3"
@@ -26,6 +28,46 @@ func FromYAML(data []byte) (*Node, error) {
 // FromYAMLNode converts a yaml.Node.
 func FromYAMLNode(n *yaml.Node) (*Node, error) {
 	return fromYAMLNode(n, map[*yaml.Node]bool{}, 0)
+}
+
+// FromYAMLInput reads a generated input document: like FromYAML, but integer
+// and boolean mapping keys are given their documented canonical string form
+// (decimal, true/false), as the generator's own tree has them.
+func FromYAMLInput(data []byte) (*Node, error) {
+	n, err := FromYAML(data)
+	if err != nil {
+		return nil, err
+	}
+	var bad error
+	seen := map[*Node]bool{}
+	var rec func(x *Node)
+	rec = func(x *Node) {
+		if x == nil || seen[x] {
+			return
+		}
+		seen[x] = true
+		for _, e := range x.Seq {
+			rec(e)
+		}
+		for i, p := range x.Map {
+			if strings.HasPrefix(p.Key, NonStringKeyPrefix) {
+				rest := strings.TrimPrefix(p.Key, NonStringKeyPrefix)
+				tag, val, _ := strings.Cut(rest, ":")
+				r := ResolvePlain(val)
+				switch {
+				case tag == "!!int" && r != nil && r.Kind == KInt:
+					x.Map[i].Key = strconv.FormatInt(r.Int, 10)
+				case tag == "!!bool" && r != nil && r.Kind == KBool:
+					x.Map[i].Key = strconv.FormatBool(r.Bool)
+				default:
+					bad = fmt.Errorf("unsupported non-string key %q", rest)
+				}
+			}
+			rec(p.Val)
+		}
+	}
+	rec(n)
+	return n, bad
 }
 
 func fromYAMLNode(n *yaml.Node, onPath map[*yaml.Node]bool, depth int) (*Node, error) {
@@ -123,4 +165,15 @@ func scalarFromYAML(n *yaml.Node) (*Node, error) {
 		return S(string(t)), nil
 	}
 	return nil, fmt.Errorf("unsupported scalar type %T", v)
+}
+
+func init() {
+	ResolvePlain = func(text string) *Node {
+		n := &yaml.Node{Kind: yaml.ScalarNode, Value: text}
+		out, err := scalarFromYAML(n)
+		if err != nil {
+			return nil
+		}
+		return out
+	}
 }
